@@ -1,4 +1,4 @@
-import Sudachi.Proofs.Trie
+import Sudachi.Proofs.TrieIndex
 /-!
 # C04 — Dictionary lookup returns exactly the entries that prefix-match the text
 
@@ -11,11 +11,16 @@ universality over lexicons is obtained by running the proved checker `checkTrie`
 every array the real builder produced in a run (`Compiled` below is exactly what the driver
 evaluates for every lexicon: `tbl=1` and `chk=1` in the answer line).
 
-**The unchanged code violates the property for texts that contain a NUL byte**
-(`nul_skipped_counterexample`): byte 0 is the double array's terminator label, an unused unit is
-all-zero, so `label(unit) == 0` matches and `offset(unit) == 0` keeps the state — the NUL byte is
-skipped.  Every theorem about texts therefore carries the hypothesis `NoNul text` (all bytes in
-1..255) and is named `…_partial`; the full statements (all byte strings) are false.
+History of the NUL clause.  As first pinned the loop of `TrieEntryIter::next` followed a NUL byte
+of the text as a transition of the double array (`nul_skipped_counterexample`, finding N1): byte 0
+is the array's terminator label, an unused unit is all-zero, so `label(unit) == 0` matches and
+`offset(unit) == 0` keeps the state — the NUL byte is skipped.  The repair (`if *k == 0 { return
+None; }`, commit 90f9fdf) has landed; the model carries both loops (`g = false` pinned, `g = true`
+guarded; the harness probes which one is linked).  Theorems that hold for BOTH loops carry the
+hypothesis `NoNul text` and keep the name `…_partial`; next to each stands the FULL statement (every
+byte string, every offset) for the guarded loop, under the hypothesis that the rows passed the
+reader's surface test (`surfaceOk`: not empty, no U+0000 — `build/lexicon.rs parse_record`, the
+other half of the repair), which is part of what the driver evaluates (`compileIndex`).
 -/
 namespace C04
 open Trie
@@ -110,23 +115,21 @@ theorem table_offsets (es : List Entry) (t : List Nat) (ents : List (List Nat ×
 
 /-! ### (4) `lookup_spec`: the layered lexicon set -/
 
-/-- a lexicon as parsed, before `LexiconSet` assigns its dictionary number -/
-structure CompiledRaw (es : List Entry) (lx : Lex) : Prop where
-  small : es.length ≤ 268435456
-  built : ∃ t ents, buildTable es = some (t, ents) ∧ Holds lx.buf lx.tblOff t ∧
-    checkTrie lx.trie ents = true
-
-theorem mkSet_spec (ws : List (List Entry × Lex)) (set : List Lex)
-    (h : mkSet (ws.map (·.2)) = some set) (hc : ∀ x ∈ ws, CompiledRaw x.1 x.2) :
+/-- `LexiconSet::new/append`: lexicon `j` of the stack gets dictionary number `j` (at most 15
+lexicons); nothing else of a lexicon changes, so any property `Q` of (rows, double array) is kept. -/
+theorem mkSet_spec (Q : List Entry → Arr → Prop) (ws : List (List Entry × Lex)) (set : List Lex)
+    (h : mkSet (ws.map (·.2)) = some set) (hc : ∀ x ∈ ws, CompiledRaw x.1 x.2)
+    (hq : ∀ x ∈ ws, Q x.1 x.2.trie) :
     ∃ ws' : List (List Entry × Lex), ws'.map (·.2) = set ∧ ws'.map (·.1) = ws.map (·.1) ∧
-      ∀ (j : Nat) (hj : j < ws'.length), Compiled ws'[j].1 ws'[j].2 (0 + j) := by
+      (∀ (j : Nat) (hj : j < ws'.length), Compiled ws'[j].1 ws'[j].2 (0 + j)) ∧
+      ∀ x ∈ ws', Q x.1 x.2.trie := by
   unfold mkSet at h
   split at h
   · cases h
   · rename_i hlen
     simp only [List.length_map, Nat.not_lt] at hlen
     simp only [Option.some.injEq] at h
-    refine ⟨ws.zipIdx.map (fun x => (x.1.1, { x.1.2 with lexId := x.2 })), ?_, ?_, ?_⟩
+    refine ⟨ws.zipIdx.map (fun x => (x.1.1, { x.1.2 with lexId := x.2 })), ?_, ?_, ?_, ?_⟩
     · rw [← h]
       apply List.ext_getElem?
       intro j
@@ -142,6 +145,9 @@ theorem mkSet_spec (ws : List (List Entry × Lex)) (set : List Lex)
       simp only [MAX_DICTIONARIES] at hlen
       simp only [List.getElem_map, List.getElem_zipIdx, Nat.zero_add]
       exact ⟨hx.small, by omega, rfl, hx.built⟩
+    · intro x hx
+      obtain ⟨y, hy, rfl⟩ := List.mem_map.mp hx
+      exact hq y.1 (List.fst_mem_of_mem_zipIdx hy)
 
 /-- **lookup_spec.**  Full statement: for every stack of 1..15 source lists compiled into
 lexicons, every byte string `text` and every offset.  Proved: the same for every NUL-free text.
@@ -153,9 +159,23 @@ theorem lookup_spec_partial (g : Bool) (ws : List (List Entry × Lex)) (set : Li
     (hset : mkSet (ws.map (·.2)) = some set) (hc : ∀ x ∈ ws, CompiledRaw x.1 x.2)
     (text : List Nat) (off : Nat) (hn : NoNul text) :
     setLookup g set text off = some (specSetFrom 0 (ws.map (·.1)) off (text.drop off)) := by
-  obtain ⟨ws', h1, h2, h3⟩ := mkSet_spec ws set hset hc
+  obtain ⟨ws', h1, h2, h3, _⟩ := mkSet_spec (fun _ _ => True) ws set hset hc (fun _ _ => trivial)
   rw [← h1, ← h2]
   exact setFrom_spec g text off hn ws' 0 h3
+
+/-- **lookup_spec, full strength** (the guarded loop, `g = true`: the code as it now stands): for
+every stack of 1..15 source lists that passed the reader's surface test and were compiled into
+lexicons, EVERY byte string `text` (NUL bytes, invalid UTF-8) and EVERY offset (inside characters,
+past the end), `LexiconSet::lookup` returns exactly the naive scan of the sources as a list. -/
+theorem lookup_spec (ws : List (List Entry × Lex)) (set : List Lex)
+    (hset : mkSet (ws.map (·.2)) = some set) (hc : ∀ x ∈ ws, CompiledRaw x.1 x.2)
+    (hs : ∀ x ∈ ws, x.1.all surfaceOk = true)
+    (text : List Nat) (off : Nat) (hn : ∀ b ∈ text, b < 256) :
+    setLookup true set text off = some (specSetFrom 0 (ws.map (·.1)) off (text.drop off)) := by
+  obtain ⟨ws', h1, h2, h3, h4⟩ := mkSet_spec (fun es a => TravOk true es a text off) ws set hset hc
+    (fun x hx => TravOk.of_guard x.1 x.2.trie text off (hs x hx) hn)
+  rw [← h1, ← h2]
+  exact setFrom_spec' true text off ws' 0 h3 h4
 
 /-- **exactly those entries, each exactly once, nothing else** (same hypotheses): the result has
 no duplicates, and `(w, e)` is in it iff `w = d · 2²⁸ + i` for a dictionary `d` and a row `i` of
@@ -168,21 +188,35 @@ theorem lookup_exact_entries_partial (g : Bool) (ws : List (List Entry × Lex)) 
       ∀ w e, (w, e) ∈ r ↔
         ∃ d es i en, (ws.map (·.1))[d]? = some es ∧ es[i]? = some en ∧ 0 ≤ en.left ∧
           en.key ≠ [] ∧ en.key <+: text.drop off ∧ e = off + en.key.length ∧
-          w = d * 268435456 + i := by
-  refine ⟨_, lookup_spec_partial g ws set hset hc text off hn, ?_, ?_⟩
-  · apply specSetFrom_nodup
-    intro es hes
-    obtain ⟨x, hx, rfl⟩ := List.mem_map.mp hes
-    exact (hc x hx).small
-  · intro w e
-    rw [mem_specSetFrom]
-    constructor
-    · rintro ⟨d, es, h1, h2⟩
-      obtain ⟨i, en, h3, h4, h5, h6, h7, h8⟩ := (mem_specLex _ _ _ _ _ _).mp h2
-      exact ⟨d, es, i, en, h1, h3, by simpa [shouldIndex] using h4, h5, h6, h7, by simpa using h8⟩
-    · rintro ⟨d, es, i, en, h1, h3, h4, h5, h6, h7, h8⟩
-      exact ⟨d, es, h1, (mem_specLex _ _ _ _ _ _).mpr
-        ⟨i, en, h3, by simpa [shouldIndex] using h4, h5, h6, h7, by simpa using h8⟩⟩
+          w = d * 268435456 + i :=
+  ⟨_, lookup_spec_partial g ws set hset hc text off hn,
+    specSet_entries _ (sources_small ws hc) off (text.drop off)⟩
+
+/-- **exactly those entries, each exactly once, nothing else — full strength** (guarded loop, every
+byte string, every offset).  The rows passed the reader's surface test, so "non-empty" is no
+longer a side condition: `(w, e)` is reported iff `w = d · 2²⁸ + i` for a row `i` of dictionary `d`
+with `left ≥ 0` whose surface is a prefix of the text at `off`, `e = off + ` its byte length. -/
+theorem lookup_exact_entries (ws : List (List Entry × Lex)) (set : List Lex)
+    (hset : mkSet (ws.map (·.2)) = some set) (hc : ∀ x ∈ ws, CompiledRaw x.1 x.2)
+    (hs : ∀ x ∈ ws, x.1.all surfaceOk = true)
+    (text : List Nat) (off : Nat) (hn : ∀ b ∈ text, b < 256) :
+    ∃ r, setLookup true set text off = some r ∧ r.Nodup ∧
+      ∀ w e, (w, e) ∈ r ↔
+        ∃ d es i en, (ws.map (·.1))[d]? = some es ∧ es[i]? = some en ∧ 0 ≤ en.left ∧
+          en.key <+: text.drop off ∧ e = off + en.key.length ∧ w = d * 268435456 + i := by
+  obtain ⟨h1, h2⟩ := specSet_entries _ (sources_small ws hc) off (text.drop off)
+  refine ⟨_, lookup_spec ws set hset hc hs text off hn, h1, ?_⟩
+  intro w e
+  rw [h2]
+  constructor
+  · rintro ⟨d, es, i, en, g1, g2, g3, _, g5, g6, g7⟩
+    exact ⟨d, es, i, en, g1, g2, g3, g5, g6, g7⟩
+  · rintro ⟨d, es, i, en, g1, g2, g3, g5, g6, g7⟩
+    refine ⟨d, es, i, en, g1, g2, g3, ?_, g5, g6, g7⟩
+    obtain ⟨x, hx, hxe⟩ := List.mem_map.mp (List.mem_of_getElem? g1)
+    have hall := hs x hx
+    rw [hxe] at hall
+    exact (surfaceOk_noNul (List.all_eq_true.mp hall en (List.mem_of_getElem? g2))).1
 
 /-- **non-indexed rows are never returned**: a returned id never names a row with negative left id -/
 theorem non_indexed_never_returned_partial (g : Bool) (ws : List (List Entry × Lex)) (set : List Lex)
@@ -191,26 +225,21 @@ theorem non_indexed_never_returned_partial (g : Bool) (ws : List (List Entry × 
     (hr : setLookup g set text off = some r) (d i e : Nat) (es : List Entry) (en : Entry)
     (hd : (ws.map (·.1))[d]? = some es) (hi : es[i]? = some en) (hneg : en.left < 0) :
     (d * 268435456 + i, e) ∉ r := by
-  obtain ⟨r', h1, _, h3⟩ := lookup_exact_entries_partial g ws set hset hc text off hn
-  rw [hr] at h1
-  cases h1
-  intro hmem
-  obtain ⟨d', es', i', en', g1, g2, g3, _, _, _, g7⟩ := (h3 _ _).mp hmem
-  have hes : es.length ≤ 268435456 := by
-    obtain ⟨x, hx, rfl⟩ := List.mem_map.mp (List.mem_of_getElem? hd)
-    exact (hc x hx).small
-  have hes' : es'.length ≤ 268435456 := by
-    obtain ⟨x, hx, rfl⟩ := List.mem_map.mp (List.mem_of_getElem? g1)
-    exact (hc x hx).small
-  have b1 := (List.getElem?_eq_some_iff.mp hi).1
-  have b2 := (List.getElem?_eq_some_iff.mp g2).1
-  have hdd : d = d' := by omega
-  subst hdd
-  have hii : i = i' := by omega
-  subst hii
-  rw [hd] at g1; cases g1
-  rw [hi] at g2; cases g2
-  omega
+  rw [lookup_spec_partial g ws set hset hc text off hn] at hr
+  cases hr
+  exact specSet_no_negative _ (sources_small ws hc) off _ d i e es en hd hi hneg
+
+/-- **non-indexed rows are never returned — full strength** (guarded loop, every byte string) -/
+theorem non_indexed_never_returned (ws : List (List Entry × Lex)) (set : List Lex)
+    (hset : mkSet (ws.map (·.2)) = some set) (hc : ∀ x ∈ ws, CompiledRaw x.1 x.2)
+    (hs : ∀ x ∈ ws, x.1.all surfaceOk = true)
+    (text : List Nat) (off : Nat) (hn : ∀ b ∈ text, b < 256) (r : List (Nat × Nat))
+    (hr : setLookup true set text off = some r) (d i e : Nat) (es : List Entry) (en : Entry)
+    (hd : (ws.map (·.1))[d]? = some es) (hi : es[i]? = some en) (hneg : en.left < 0) :
+    (d * 268435456 + i, e) ∉ r := by
+  rw [lookup_spec ws set hset hc hs text off hn] at hr
+  cases hr
+  exact specSet_no_negative _ (sources_small ws hc) off _ d i e es en hd hi hneg
 
 /-- the dictionary number and the row number are recoverable from a reported id
 (`WordId::dic`, `WordId::word`) -/
@@ -228,16 +257,213 @@ theorem exact_lookup_spec_partial (g : Bool) (ws : List (List Entry × Lex)) (se
       ∀ w e, (w, e) ∈ r ↔
         e = q.length ∧ q ≠ [] ∧ ∃ d es i en, (ws.map (·.1))[d]? = some es ∧ es[i]? = some en ∧
           0 ≤ en.left ∧ en.key = q ∧ w = d * 268435456 + i := by
-  obtain ⟨r, h1, h2, h3⟩ := lookup_exact_entries_partial g ws set hset hc q 0 hn
-  refine ⟨r.filter (fun we => we.2 == q.length), by simp [exactLookup, h1], h2.filter _, ?_⟩
+  have h1 := lookup_spec_partial g ws set hset hc q 0 hn
+  exact ⟨_, by simp [exactLookup, h1], specSet_exact _ (sources_small ws hc) q⟩
+
+/-- **exact-surface lookup — full strength** (guarded loop): for EVERY query (any byte string; the
+API passes a `&str`) the filter of `MorphemeList::lookup` keeps exactly the indexed rows whose
+surface equals the query, each once, with end = the query's length; the empty query finds nothing. -/
+theorem exact_lookup_spec (ws : List (List Entry × Lex)) (set : List Lex)
+    (hset : mkSet (ws.map (·.2)) = some set) (hc : ∀ x ∈ ws, CompiledRaw x.1 x.2)
+    (hs : ∀ x ∈ ws, x.1.all surfaceOk = true) (q : List Nat) (hn : ∀ b ∈ q, b < 256) :
+    ∃ r, exactLookup true set q = some r ∧ r.Nodup ∧
+      ∀ w e, (w, e) ∈ r ↔
+        e = q.length ∧ q ≠ [] ∧ ∃ d es i en, (ws.map (·.1))[d]? = some es ∧ es[i]? = some en ∧
+          0 ≤ en.left ∧ en.key = q ∧ w = d * 268435456 + i := by
+  have h1 := lookup_spec ws set hset hc hs q 0 hn
+  exact ⟨_, by simp [exactLookup, h1], specSet_exact _ (sources_small ws hc) q⟩
+
+/-! ### (4b) the builder side: rows → index bytes → `Lexicon::parse` → look-up -/
+
+/-- **index_roundtrip.**  For EVERY list of rows (surface, left id) that the model of the builder
+accepts (`compileIndex`: the reader's surface test on every row, ids grouped by key in row order,
+records `count, ids…` with the 1-byte count limited to 127, record offsets as trie values, a
+non-empty key set), every double array `units` that satisfies the common-prefix contract for the
+`(key, offset)` list handed to the external builder (`checkTrie`: what the proved checker
+establishes for the real array of every lexicon of every run), wherever the bytes `write_index`
+writes (`indexBytes`: unit count, units, table size, table) lie in a file (`pre`: header and
+grammar, `post`: word parameters and word infos): `Lexicon::parse` at that place succeeds, and
+`Lexicon::lookup` of the parsed lexicon with dictionary number `d < 15` returns, for EVERY byte
+string and EVERY offset, exactly the naive scan of the rows — by key length, rows in order,
+`(d · 2²⁸ + row number, offset + key length)`.  The double array stays abstract; the word-id table
+bytes, their place in the buffer and their reading are concrete.  Hypotheses `hu`, `hul`: the units
+are `u32`s and their number fits the `u32` the builder casts it to (`(trie.len() / 4) as u32`
+truncates silently otherwise). -/
+theorem index_roundtrip (es : List Entry) (t : List Nat) (ents : List (List Nat × Nat))
+    (units pre post : List Nat) (d : Nat)
+    (hc : compileIndex es = some (t, ents)) (hs : es.length ≤ 268435456)
+    (hchk : checkTrie units.toArray ents = true)
+    (hu : ∀ u ∈ units, u < 4294967296) (hul : units.length < 4294967296) (hd : d < 15) :
+    ∃ lx, parseLex (pre ++ indexBytes units t ++ post).toArray pre.length = some lx ∧
+      ∀ (text : List Nat) (off : Nat), (∀ b ∈ text, b < 256) →
+        lexLookup true { lx with lexId := d } text off = some (specLex d es off (text.drop off)) := by
+  obtain ⟨hok, hb, _⟩ := compileIndex_some hc
+  obtain ⟨hp, hh⟩ := parseLex_indexBytes pre post units t hu hul
+  refine ⟨_, hp, ?_⟩
+  intro text off hn
+  exact lexLookup_spec' true (es := es) (d := d) ⟨hs, hd, rfl, t, ents, hb, hh, hchk⟩ text off
+    (TravOk.of_guard es _ text off hok hn)
+
+/-- `index_roundtrip` in the words of the property: the look-up in the model-built index returns
+each row at most once, and `(w, e)` iff `w = d · 2²⁸ + i` for a row `i` with `left ≥ 0` whose key
+is a prefix of the text at the offset and `e` = offset + key length — non-indexed rows never. -/
+theorem index_roundtrip_entries (es : List Entry) (t : List Nat) (ents : List (List Nat × Nat))
+    (units pre post : List Nat) (d : Nat)
+    (hc : compileIndex es = some (t, ents)) (hs : es.length ≤ 268435456)
+    (hchk : checkTrie units.toArray ents = true)
+    (hu : ∀ u ∈ units, u < 4294967296) (hul : units.length < 4294967296) (hd : d < 15) :
+    ∃ lx, parseLex (pre ++ indexBytes units t ++ post).toArray pre.length = some lx ∧
+      ∀ (text : List Nat) (off : Nat), (∀ b ∈ text, b < 256) →
+        ∃ r, lexLookup true { lx with lexId := d } text off = some r ∧ r.Nodup ∧
+          ∀ w e, (w, e) ∈ r ↔ ∃ i en, es[i]? = some en ∧ 0 ≤ en.left ∧
+            en.key <+: text.drop off ∧ e = off + en.key.length ∧ w = d * 268435456 + i := by
+  obtain ⟨lx, hp, hl⟩ := index_roundtrip es t ents units pre post d hc hs hchk hu hul hd
+  refine ⟨lx, hp, fun text off hn => ⟨_, hl text off hn, specLex_nodup _ _ _ _, ?_⟩⟩
   intro w e
-  simp only [List.mem_filter, h3, List.drop_zero, beq_iff_eq, Nat.zero_add]
+  rw [mem_specLex]
+  have hok := (compileIndex_some hc).1
   constructor
-  · rintro ⟨⟨d, es, i, en, g1, g2, g3, g4, g5, g6, g7⟩, g8⟩
-    have hk : en.key = q := g5.eq_of_length (by omega)
-    refine ⟨g8, by rw [← hk]; exact g4, d, es, i, en, g1, g2, g3, hk, g7⟩
-  · rintro ⟨g8, g9, d, es, i, en, g1, g2, g3, rfl, g7⟩
-    exact ⟨⟨d, es, i, en, g1, g2, g3, g9, List.prefix_refl _, g8, g7⟩, g8⟩
+  · rintro ⟨i, en, g1, g2, _, g4, g5, g6⟩
+    exact ⟨i, en, g1, by simpa [shouldIndex] using g2, g4, g5, g6⟩
+  · rintro ⟨i, en, g1, g2, g4, g5, g6⟩
+    exact ⟨i, en, g1, by simpa [shouldIndex] using g2,
+      (surfaceOk_noNul (List.all_eq_true.mp hok en (List.mem_of_getElem? g1))).1, g4, g5, g6⟩
+
+/-- **the 1-byte count.**  More than 127 indexed rows with one surface: `write_u32_array` returns
+`InvalidSize` and the dictionary is not compiled — the count byte never wraps, the group is never
+split over several records, nothing is dropped silently. -/
+theorem builder_refuses_many_homographs (es : List Entry) (hs : es.length ≤ 268435456)
+    (key : List Nat) (h : 127 < (idsFrom 0 es key).length) : compileIndex es = none := by
+  unfold compileIndex
+  split
+  · rw [buildTable_none_of_many es hs key h]
+  · rfl
+
+/-- no row with `left ≥ 0`: `build_trie` returns `TrieBuildFailure` (the external builder is never
+called with an empty key set) -/
+theorem builder_refuses_empty_index (es : List Entry) (h : ∀ e ∈ es, e.left < 0) :
+    compileIndex es = none :=
+  compileIndex_none_of_no_indexed es (fun e he => by
+    have := h e he
+    simp only [shouldIndex, decide_eq_false_iff_not, ge_iff_le]
+    omega)
+
+/-- a row — indexed or not — with an empty surface, a NUL byte in it (the reader: `EmptySurface`) or
+more than 32 767 bytes (`write_word_info`: `InvalidSize`): the dictionary is not compiled -/
+theorem builder_refuses_bad_surface (es : List Entry) (e : Entry) (he : e ∈ es)
+    (h : e.key = [] ∨ 0 ∈ e.key ∨ 32767 < e.key.length) : compileIndex es = none := by
+  unfold compileIndex
+  split
+  · rename_i hall
+    have h1 := surfaceOk_noNul (List.all_eq_true.mp hall e he)
+    have h2 := surfaceOk_len (List.all_eq_true.mp hall e he)
+    rcases h with h | h | h
+    · exact absurd h h1.1
+    · exact absurd h h1.2
+    · omega
+  · rfl
+
+/-- **what the builder does with a row list — completely.**  Below `WordId`'s limit of 2²⁸ rows the
+model of the builder refuses a row list iff some surface fails the surface test, or some surface
+has more than 127 indexed rows, or no row is indexed; in particular the `u32` test on the record
+offsets in `build_trie` (`WordIdTableNotBuilt`) can never fire: 2²⁸ ids in at most 2²⁸ records are
+at most 5 · 2²⁸ < 2³² bytes. -/
+theorem builder_refuses_iff (es : List Entry) (hs : es.length ≤ 268435456) :
+    compileIndex es = none ↔
+      (∃ e ∈ es, e.key = [] ∨ 0 ∈ e.key ∨ 32767 < e.key.length) ∨
+      (∃ key, 127 < (idsFrom 0 es key).length) ∨ (∀ e ∈ es, e.left < 0) := by
+  constructor
+  · intro hnone
+    refine Classical.byContradiction (fun hcon => ?_)
+    simp only [not_or, not_exists, not_and, Nat.not_lt] at hcon
+    obtain ⟨c1, c2, c3⟩ := hcon
+    have c3' : ∃ e ∈ es, 0 ≤ e.left := by
+      refine Classical.byContradiction (fun h => c3 (fun e he => ?_))
+      exact Int.lt_of_not_ge (fun h0 => h ⟨e, he, h0⟩)
+    obtain ⟨r, hr⟩ := compileIndex_isSome es hs
+      (fun x hx => by
+        have := c1 x hx
+        exact ⟨this.1, this.2.1, this.2.2⟩)
+      c2 c3'
+    rw [hr] at hnone
+    cases hnone
+  · rintro (⟨e, he, h⟩ | ⟨key, h⟩ | h)
+    · exact builder_refuses_bad_surface es e he h
+    · exact builder_refuses_many_homographs es hs key h
+    · exact builder_refuses_empty_index es h
+
+/-- conversely, what an accepted row list looks like -/
+theorem builder_accepts_only (es : List Entry) (t : List Nat) (ents : List (List Nat × Nat))
+    (hc : compileIndex es = some (t, ents)) (hs : es.length ≤ 268435456) :
+    (∀ e ∈ es, e.key ≠ [] ∧ 0 ∉ e.key ∧ e.key.length ≤ 32767) ∧
+      (∀ key, (idsFrom 0 es key).length ≤ 127) ∧ ∃ e ∈ es, 0 ≤ e.left := by
+  refine ⟨?_, ?_, ?_⟩
+  · intro e he
+    refine ⟨fun h0 => ?_, fun h0 => ?_, Nat.le_of_not_lt (fun h0 => ?_)⟩
+    · rw [builder_refuses_bad_surface es e he (Or.inl h0)] at hc; cases hc
+    · rw [builder_refuses_bad_surface es e he (Or.inr (Or.inl h0))] at hc; cases hc
+    · rw [builder_refuses_bad_surface es e he (Or.inr (Or.inr h0))] at hc; cases hc
+  · intro key
+    refine Nat.le_of_not_lt (fun h => ?_)
+    rw [builder_refuses_many_homographs es hs key h] at hc; cases hc
+  · refine Classical.byContradiction (fun h => ?_)
+    have : ∀ e ∈ es, e.left < 0 := fun e he => by
+      refine Int.lt_of_not_ge (fun h0 => h ⟨e, he, h0⟩)
+    rw [builder_refuses_empty_index es this] at hc; cases hc
+
+/-! ### (4c) `MorphemeList::lookup` on a list that is reused -/
+
+/-- **exact-surface lookup through `MorphemeList::lookup`, on any list.**  For every query of at
+most `MAX_LENGTH` bytes there is ONE list `new` of nodes — the same whatever the list held before —
+such that the call returns `Ok(new.length)` and leaves `old ++ new` in the list (the function as it
+stands appends; after `clear()` the list is exactly `new`; with the candidate repair, `rep = true`,
+the list is exactly `new` whatever it held): every new node spans the whole query
+(characters `0 .. chCount q`, bytes `0 .. |q|`), the word ids are pairwise different and are
+exactly the ids `d · 2²⁸ + i` of the indexed rows whose surface equals the query. -/
+theorem mlist_lookup_spec (ws : List (List Entry × Lex)) (set : List Lex)
+    (hset : mkSet (ws.map (·.2)) = some set) (hc : ∀ x ∈ ws, CompiledRaw x.1 x.2)
+    (hs : ∀ x ∈ ws, x.1.all surfaceOk = true) (q : List Nat) (hn : ∀ b ∈ q, b < 256)
+    (hl : q.length ≤ MAX_LENGTH) :
+    ∃ new : List RNode,
+      (∀ old, mlLookup true false set old q = .ok new.length (old ++ new)) ∧
+      (∀ old, mlLookup true false set (mlClear old) q = .ok new.length new) ∧
+      (∀ old, mlLookup true true set old q = .ok new.length new) ∧
+      (∀ n ∈ new, n.beginC = 0 ∧ n.endC = chCount q ∧ n.beginB = 0 ∧ n.endB = q.length) ∧
+      (new.map (·.wid)).Nodup ∧
+      ∀ w, w ∈ new.map (·.wid) ↔ q ≠ [] ∧ ∃ d es i en, (ws.map (·.1))[d]? = some es ∧
+        es[i]? = some en ∧ 0 ≤ en.left ∧ en.key = q ∧ w = d * 268435456 + i := by
+  obtain ⟨r, h1, h2, h3⟩ := exact_lookup_spec ws set hset hc hs q hn
+  have hlen : ¬ q.length > MAX_LENGTH := by omega
+  refine ⟨r.map (fun we => ({ beginC := 0, endC := chCount q, beginB := 0, endB := q.length, wid := we.1 } : RNode)),
+    ?_, ?_, ?_, ?_, ?_, ?_⟩
+  · intro old
+    simp [mlLookup, hlen, h1]
+  · intro old
+    simp [mlLookup, mlClear, hlen, h1]
+  · intro old
+    simp [mlLookup, hlen, h1]
+  · intro n hn'
+    obtain ⟨we, _, rfl⟩ := List.mem_map.mp hn'
+    exact ⟨rfl, rfl, rfl, rfl⟩
+  · rw [List.map_map, List.Nodup, List.pairwise_map]
+    refine h2.imp_of_mem (fun {a b} ha hb hne heq => hne ?_)
+    have ea := ((h3 a.1 a.2).mp ha).1
+    have eb := ((h3 b.1 b.2).mp hb).1
+    exact Prod.ext heq (by rw [ea, eb])
+  · intro w
+    rw [List.map_map]
+    simp only [List.mem_map, Function.comp_apply]
+    constructor
+    · rintro ⟨we, hwe, rfl⟩
+      exact ((h3 we.1 we.2).mp hwe).2
+    · rintro ⟨g1, g2⟩
+      exact ⟨(w, q.length), (h3 w q.length).mpr ⟨rfl, g1, g2⟩, rfl⟩
+
+/-- a query above `MAX_LENGTH` bytes is rejected by `start_build` (`InputTooLong`) before any
+look-up; the nodes of the list are not touched (the case line keeps them for the next query) -/
+theorem mlist_lookup_too_long (g rep : Bool) (set : List Lex) (old : List RNode) (q : List Nat)
+    (h : MAX_LENGTH < q.length) : mlLookup g rep set old q = .tooLong := by
+  simp [mlLookup, h]
 
 /-! ### (5) the violation: NUL bytes are skipped -/
 
@@ -292,5 +518,35 @@ example : CompiledRaw [⟨[97], 0⟩] lexA ∧ NoNul [98, 97, 97] ∧
 
 example : widTable_roundtrip #[9, 2, 1, 0, 0, 0, 0xff, 0xff, 0xff, 0x0f, 7] [9] [7] [1, 0x0fffffff] 0 1
     (by decide) (by decide) (by decide) = (by decide : entries #[9, 2, 1, 0, 0, 0, 0xff, 0xff, 0xff, 0x0f, 7] 0 1 = some [1, 0x0fffffff]) := rfl
+
+/-- the hypotheses of `index_roundtrip` are satisfiable — rows `a` (indexed), `b` (not indexed), `a`
+(indexed) compile to the table `02 00000000 02000000` and the key list `[(a, 0)]`; the array of
+case 0 satisfies the contract for it — and the theorem then answers a concrete look-up in the file
+`ff | index bytes | ee`: both rows `a`, with their LINE numbers 0 and 2 (not their ranks 0 and 1,
+`seeded/C04b`), stamped with dictionary number 3 -/
+example : compileIndex [⟨[97], 0⟩, ⟨[98], -1⟩, ⟨[97], 5⟩] = some ([2, 0, 0, 0, 0, 2, 0, 0, 0], [([97], 0)]) ∧
+    checkTrie arrA.toList.toArray [([97], 0)] = true ∧
+    (∀ u ∈ arrA.toList, u < 4294967296) ∧ arrA.toList.length < 4294967296 ∧
+    specLex 3 [⟨[97], 0⟩, ⟨[98], -1⟩, ⟨[97], 5⟩] 1 ([0, 97, 98].drop 1) = [(805306368, 2), (805306370, 2)] := by
+  refine ⟨by decide, arrA_checked, ?_, by decide +kernel, by decide⟩
+  intro u hu
+  have h : arrA.toList.all (fun u => decide (u < 4294967296)) = true := by decide +kernel
+  exact of_decide_eq_true (List.all_eq_true.mp h u hu)
+
+/-- the refusals are real: 128 homographs, no indexed row, a NUL byte in a surface, an empty surface -/
+example : compileIndex (List.replicate 128 ⟨[97], 0⟩) = none ∧ compileIndex [⟨[97], -1⟩] = none ∧
+    compileIndex [⟨[97, 0], 0⟩] = none ∧ compileIndex [⟨[97], 0⟩, ⟨[], -1⟩] = none ∧
+    127 < (idsFrom 0 (List.replicate 128 ⟨[97], 0⟩) [97]).length := by
+  refine ⟨by decide +kernel, by decide, by decide, by decide, by decide +kernel⟩
+
+/-- the hypotheses of the full set theorems (`hs`: surface test; `hn`: bytes; `hl`: length) hold for
+the lexicon of case 0 and a text with a NUL byte, and `mlLookup` then appends one node to a list
+that already holds one -/
+example : (∀ x ∈ [(([⟨[97], 0⟩] : List Entry), lexA)], x.1.all surfaceOk = true) ∧
+    (∀ b ∈ [0, 97], b < 256) ∧ [97].length ≤ MAX_LENGTH ∧
+    mlLookup true false [{ lexA with lexId := 0 }] [⟨0, 9, 0, 9, 77⟩] [97] =
+      .ok 1 [⟨0, 9, 0, 9, 77⟩, ⟨0, 1, 0, 1, 0⟩] ∧
+    mlLookup true true [{ lexA with lexId := 0 }] [⟨0, 9, 0, 9, 77⟩] [97] = .ok 1 [⟨0, 1, 0, 1, 0⟩] := by
+  refine ⟨by decide, by decide, by decide, by decide +kernel, by decide +kernel⟩
 
 end C04
